@@ -18,9 +18,10 @@ T_MAX = datetime.datetime(1900, 1, 1) + datetime.timedelta(seconds=2 ** 32 - 1)
 
 
 class Spec:
-    __slots__ = ("cls", "arg", "lavp", "sig", "members")
+    __slots__ = ("cls", "arg", "lavp", "sig", "members", "path")
 
-    def __init__(self, cls, arg, lavp, sig, members=None):
+    def __init__(self, cls, arg, lavp, sig, members=None, path=None):
+        self.path = path        # Grouped built from a list: (construction path, number of members given to the constructor)
         self.cls = cls          # class object, or None for a generic DiameterAVP
         self.arg = arg          # constructor argument (dict of kwargs for generic AVPs)
         self.lavp = lavp        # expected wire content
@@ -32,7 +33,19 @@ class Spec:
         if self.cls is None:
             return DiameterAVP(**self.arg)
         if self.members is not None:
-            return self.cls([m.build() for m in self.members])
+            objs = [m.build() for m in self.members]
+            path, k = self.path or ("list", len(objs))
+            if path == "list":
+                return self.cls(objs)
+            g = self.cls(objs[:k])
+            if path == "list+append":
+                for o in objs[k:]:
+                    g.append(o)
+            elif path == "list+extend":
+                g.extend(objs[k:])
+            elif path == "avps=":
+                g.avps = objs
+            return g
         return self.cls(self.arg)
 
     def describe(self):
@@ -264,7 +277,20 @@ class Gen:
                 mspecs.append(self.avp(ocls, depth + 1, maxdepth, with_generic=with_generic))
             if with_generic and r.random() < 0.35:
                 mspecs.append(self.generic())
-            r.shuffle(mspecs)
+            nmand = len(row["mandatory"])
+            mand, rest = mspecs[:nmand], mspecs[nmand:]
+            r.shuffle(rest)
+            path = None
+            if form == "list":
+                pk = r.choice(["list", "list", "list+append", "list+extend", "avps="])
+                # the constructor needs the mandatory members; the others may come through append()/extend()
+                keep = r.randrange(0, len(rest) + 1) if pk in ("list+append", "list+extend") else len(rest)
+                first = mand + rest[:keep]
+                r.shuffle(first)
+                mspecs = first + rest[keep:]
+                path = (pk, len(first))
+            else:
+                r.shuffle(mspecs)
             wire_members = [m.lavp for m in mspecs]
             lavp = R.LAvp(code, flags, vendor, wire_members)
             if form == "list":
@@ -273,8 +299,8 @@ class Gen:
             else:
                 arg = R.avp_data(lavp)
             d = 1 + max([_depth(m) for m in mspecs] or [0])
-            sig = "%s/%s/d%d/n%d/%s" % (name, form, d, len(mspecs), "V" if vendor is not None else "-")
-            return Spec(cls, arg, lavp, sig, members)
+            sig = "%s/%s/d%d/n%d/%s" % (name, form if path is None else path[0], d, len(mspecs), "V" if vendor is not None else "-")
+            return Spec(cls, arg, lavp, sig, members, path)
         else:
             raise AssertionError("unknown kind %r for %s" % (kind, name))
         lavp = R.LAvp(code, flags, vendor, wire)
